@@ -79,8 +79,6 @@ type entryRec struct {
 	WriteTick   int64 `json:"write_tick"`
 	Writers     int   `json:"writers"` // number of concurrent WriteLog callers in the append action
 	Garbage     bool  `json:"garbage,omitempty"`
-	// Reject: the entry is one the local replicator cannot apply (corrupt | garbage); it carries no rows
-	Reject string `json:"reject,omitempty"`
 	// Raced: a data flush of the family started after the replicator's WriteRows of this entry had returned and before
 	// its CommitSequence
 	Raced bool `json:"raced,omitempty"`
